@@ -15,7 +15,7 @@ TLS_BASED = ["tls", "btls", "utls", "utlst"]
 def scenarios(tp):
     if tp == "utlst":           # a utls client of a plain tls server: the TLS leg of utls
         return ["normal", "garbage2", "ctlflood", "blocking", "longidle"]
-    s = ["normal", "refused", "idle", "ctlflood", "blocking"]
+    s = ["normal", "refused", "idle", "ctlflood", "blocking", "accfail"]
     if tp in TCP_BASED:
         s.append("silent")
         s.append("longidle")
@@ -24,6 +24,8 @@ def scenarios(tp):
         s.append("release")
     if tp in TLS_BASED:
         s += ["mute", "garbage", "release", "garbage2"]
+    if tp in ("tls", "btls"):
+        s.append("badski")
     return s
 
 
@@ -83,6 +85,8 @@ def gen_scripts(rnd, nseeds, xid0=0):
             n = nseeds if sc in ("normal", "mute", "garbage", "ctlflood", "garbage2") else max(1, nseeds // 3)
             if sc == "longidle":
                 n = 1          # 3.4 s each
+            if sc == "badski":
+                n = max(n, 8)  # two sides x four key identifiers
             for _ in range(n):
                 xid += 1
                 scripts.append("X %d %s %s %d" % (xid, tp, sc, rnd.randint(1, 10 ** 6)))
